@@ -84,7 +84,31 @@ func poisonSink(enc tokenSink) {
 		{{Type: tok.TArrOpen, Length: 2}, {Type: tok.TInt, Int: 1}},
 		{{Type: tok.TMapOpen, Length: 1}, {Type: tok.TString, Str: "k"}, {Type: tok.TArrOpen, Length: 0}, {Type: tok.TArrClose}, {Type: tok.TMapClose}},
 	}
-	for _, t := range seqs[sinkPoison%len(seqs)] {
+	// every fourth time: a document nested past the encoders' pre-sized stacks (10 levels; 11, 12, 25, 45 deep in rotation),
+	// completed or abandoned at the bottom
+	seq := seqs[sinkPoison%len(seqs)]
+	if sinkPoison%4 == 3 {
+		depth := []int{11, 12, 25, 45}[(sinkPoison/4)%4]
+		seq = nil
+		for d := 0; d < depth; d++ {
+			if (d+sinkPoison/16)%2 == 0 {
+				seq = append(seq, tok.Token{Type: tok.TArrOpen, Length: -1 + 2*((sinkPoison/32)%2)})
+			} else {
+				seq = append(seq, tok.Token{Type: tok.TMapOpen, Length: -1 + 2*((sinkPoison/32)%2)}, tok.Token{Type: tok.TString, Str: "k"})
+			}
+		}
+		seq = append(seq, tok.Token{Type: tok.TInt, Int: 1})
+		if (sinkPoison/64)%2 == 0 {
+			for d := depth - 1; d >= 0; d-- {
+				if (d+sinkPoison/16)%2 == 0 {
+					seq = append(seq, tok.Token{Type: tok.TArrClose})
+				} else {
+					seq = append(seq, tok.Token{Type: tok.TMapClose})
+				}
+			}
+		}
+	}
+	for _, t := range seq {
 		slot := t
 		func() {
 			defer func() { recover() }()
@@ -107,7 +131,9 @@ func runCborEnc(payload string) string {
 	res := fmt.Sprintf("%s %d %s %s", class, used, hexOrDash(w.buf), chunkLens(w.chunks))
 	if class == "fin" {
 		// round trip through the real decoder, with trailing bytes that must be left alone
-		res += " | rt: " + runCborDec("0 "+hex.EncodeToString(w.buf)+"0102")
+		// (delivered whole, a byte at a time, in halves, or with the error arriving together with the last bytes)
+		via := []string{"", " one", " half", " dataerr"}[len(w.buf)%4]
+		res += " | rt: " + runCborDec("0 "+hex.EncodeToString(w.buf)+"0102"+via)
 	}
 	return res
 }
